@@ -1000,7 +1000,7 @@ def run(chk):
         exp = {int(k): v for k, v in d.get("expect", {}).items()}
         scenarios.append(prepare(chk, msgs, d.get("vias", ["append"] * len(msgs)), "corpus/" + name, expected=exp))
     # 2. generated histories
-    nworlds, per = (3, 14) if chk.tier == "quick" else (24, 22)
+    nworlds, per = (3, 12) if chk.tier == "quick" else (24, 22)
     nontrivial = set()
     for w in range(nworlds):
         pool = list(POOL_SEED)
